@@ -36,7 +36,10 @@ DefaultMsgs == { M(0, 257, TRUE, "CE", 280, "DW", 4), M(0, 257, FALSE, "CE", 280
                  M(4, 272, TRUE, "CC", 257, "CE", 0), M(4, 272, FALSE, "CC", 257, "CE", 16777251),
                  M(4, 257, TRUE, "CE", 272, "CC", 0), M(16777251, 280, FALSE, "DW", 316, "UL", 0),
                  \* Credit-Control (defined for application 4 only) under S6a / under Gx, whose AVP lookups have parent 4
-                 M(16777251, 272, TRUE, "", 316, "CC", 4), M(16777238, 265, FALSE, "", 272, "AA", 1) }
+                 M(16777251, 272, TRUE, "", 316, "CC", 4), M(16777238, 265, FALSE, "", 272, "AA", 1),
+                 \* base commands under an application id no dictionary defines (they resolve through base);
+                 \* the neighbouring index key is the same command under application 0
+                 M(99999, 257, TRUE, "CE", 280, "DW", 0), M(99999, 280, FALSE, "DW", 257, "CE", 0) }
 
 Init == m \in Msgs /\ regs = <<>> /\ nextKey = 1 /\ rereg = 0
 \* sp = spelling used to register: the catch-all can be registered as Handle("ALL", h) or as
